@@ -24,7 +24,9 @@ ASSUMPTIONS = [
 
 
 def check(ctx):
-    return ca_common.run(ctx, "KrillModel.Props.C02", "C02", ASSUMPTIONS)
+    # body of CertifiedKey::wants_update regenerated from the source; C02Src: generated definition = model function
+    return ca_common.run(ctx, "KrillModel.Props.C02", "C02", ASSUMPTIONS,
+                         translate=[("pure_fns:C02", "PureFns.lean")], extra_modules=["KrillModel.Props.C02Src"])
 
 
 def replay(ctx, data):
